@@ -59,6 +59,7 @@ type Pkg struct {
 	Focus  string // when set, only this file is analysed (the other files are context)
 
 	ClaimCheck  string      // near-miss inputs: "*" or the name of the re-typed variable; suggested fixes touching it must still type-check
+	Fresh       bool        // run with freshly constructed hand-written checker instances (no state from earlier files)
 	DefaultOnly bool        // S4: run the default parameter variant of every checker only
 	BaseKey     string      // S4 layout variants: "<base package>/<file>" whose diagnostics must coincide
 	Ins         []insertion // S4 layout variants: the inserted blanks (for mapping offsets back)
